@@ -133,15 +133,16 @@ func closeWhileConnecting(c *Ctx, seed uint64, variant int) {
 	ok := true
 
 	if !outbound {
-		base := tb.ps.banned.Load()
 		p, err := tb.dialTCP(1, 1, 10)
 		if err != nil {
 			c.Res.Fail("harness-setup-failed", err.Error(), nil)
 			return
 		}
 		cleanup = append(cleanup, p.close)
-		if !waitUntil(settleTimeout, func() bool { return tb.ps.banned.Load() > base }) {
-			failf("syncer-accept-stalled", "the inbound connection never reached allowConnect")
+		// give the syncer a moment to accept the connection and decide on it; if it has closed it
+		// already there is no connection attempt to close around
+		if p.refusedEarly(2 * time.Millisecond) {
+			c.Res.Count("connecting:refused-at-once")
 			ok = false
 		}
 		shake := func() {
